@@ -147,8 +147,8 @@ def merge_strictness(ctx, rule='C06-R3'):
     p = ctx.project
     f = p.func(MERGE, rule)
     ctx.saw(f)
-    s = fx.summ[MERGE]
-    loops = [l for l in fx.ex.loops.values() if l.func.qname == MERGE and l.kind == 'while']
+    s = fx.deep(MERGE)[1]
+    loops = [l for l in fx.deep_loops(MERGE).values() if l.func.qname == MERGE and l.kind == 'while']
     ctx.check(len(loops) == 1, rule, MERGE, f.node.name, f.loc(), f'{len(loops)} while loops in the merge routine',
               instance='merge: one iterative loop')
     if len(loops) != 1:
@@ -256,7 +256,12 @@ def min_sep_lookup(ctx, rule='C06-R4'):
               'then index out of range)', instance='min_sep: lengths checked (AmpycloudError)')
     rets = [e for e in evs if e.kind == 'return']
     h = ('p', f.params[1])
-    good = len(rets) == 1 and rets[0].value == ('sub', VALS, ('call', ('g', 'numpy.searchsorted'), (LIMS, h), ()))
+    rets = [r for r in rets if not r.ctx]
+    lookup = rets[0].value if rets else None
+    if tag(lookup) == 'sub' and tag(lookup[2]) == 'call' and dict(lookup[2][3]).get('side') == C('left'):
+        # side='left' is NumPy's default
+        lookup = ('sub', lookup[1], ('call', lookup[2][1], lookup[2][2], tuple(k for k in lookup[2][3] if k[0] != 'side')))
+    good = len(rets) == 1 and lookup == ('sub', VALS, ('call', ('g', 'numpy.searchsorted'), (LIMS, h), ()))
     ctx.check(good, rule, MINSEP, f.node.name, f.loc(),
               f'min_sep = {T.show(rets[0].value, maxlen=120) if rets else None}: expected '
               'MIN_SEP_VALS[searchsorted(MIN_SEP_LIMS, height)]', instance='min_sep: bin looked up by searchsorted')
